@@ -267,7 +267,7 @@ PROPS = {
                      "patch lists + purity/determinism oracle on every call",
     },
     "C18": {
-        "seed": 118, "gentie": 0, "corr": ["Validator"], "coq_dirs": ["Doc", "Json", "Corr/Validator", "Props/C18"],
+        "seed": 118, "gentie": 0, "corr": ["Validator"], "coq_dirs": ["Doc", "Json", "Corr/Validator", "GenTie/Validator", "Props/C18"],
         "gens": [{"name": "gen_validator", "pkg": "./cmd/gen_validator"},
                  {"name": "gen_jsonpatch", "pkg": "./cmd/gen_jsonpatch", "args": ["-coqdir", "{COQ}"]}],
         "rule": "validators: patch values generated around every rule (each violation singly and in combination: action, ids "
